@@ -23,6 +23,7 @@ import (
 	soy "github.com/robfig/soy"
 	"github.com/robfig/soy/ast"
 	"github.com/robfig/soy/data"
+	"github.com/robfig/soy/errortypes"
 	"github.com/robfig/soy/parse"
 	"github.com/robfig/soy/parsepasses"
 	"github.com/robfig/soy/soyhtml"
@@ -242,7 +243,11 @@ func init() {
 			all = append(all, c...)
 		}
 		if err != nil {
-			return "ERR " + showOut(o, all)
+			line, file := 0, ""
+			if fp := errortypes.ToErrFilePos(err); fp != nil {
+				line, file = fp.Line(), fp.File()
+			}
+			return "ERR " + showOut(o, all) + " line=" + strconv.Itoa(line) + " file=" + hxs(file)
 		}
 		return "OK " + showOut(o, all) + " chunks=" + strconv.Itoa(len(w.chunks))
 	}
@@ -648,6 +653,12 @@ func genBundles(g *G, bg *bundleGen, n int, hostile bool) {
 	for i := 0; i < n; i++ {
 		b := bg.bundle()
 		fs := b.sources()
+		if i%2 == 1 {
+			// spread the commands over lines, so that the line an error reports is informative
+			for k := range fs {
+				fs[k].content = strings.ReplaceAll(fs[k].content, "}{", "}\n{")
+			}
+		}
 		tree, err := parseFilesMsgs(fs)
 		if err != nil {
 			g.Add(Case{Req: req("noparse", encSources(fs)), Class: "unparsable", Note: "bundle#" + strconv.Itoa(i), NoModel: true})
@@ -844,7 +855,42 @@ func genC06total(g *G) {
 		}
 	}
 	genGlobalsFiles(g)
+	genErrPositions(g)
 	g.Exhaustive = false
+}
+
+// genErrPositions: failing nodes at chosen lines — multi-line tags and expressions, failures inside
+// callees at depth (the entry template's call node is reported), after param / let content blocks,
+// inside messages, loops, switch cases and directive arguments, and an unknown entry template.
+func genErrPositions(g *G) {
+	callee := "\n/** @param? x */\n{template .c}\n\n{$x}{$u2.y}\n{/template}\n/** @param? x */\n{template .d}\nd\n{call .c}{param x: 1 /}{/call}\n{/template}\n/** @param? x */\n{template .ok}\n[{$x}]\n{/template}\n"
+	bodies := []string{
+		"a\n{$u.x}\nb", "a\n\n{print $i +\n $u.x}", "{if $b\n and\n $u.x}T{/if}", "{if $c}x{elseif\n $u.x}y{/if}", "{$i}\n{min(1,\n 2,\n 3)}", "{max(1,\n $u.x)}",
+		"{['a': 1,\n 'b': $u.x]}", "{[1,\n 2,\n $u.x]}", "{$b ? 1 :\n $u.x}", "{$c ? 1 :\n\n $u.x}", "{$b ?\n $u.x : 2}", "{$l[\n $u.x]}", "{$m.c\n.zz.y}", "{$s|truncate:\n$u.x}", "{$s\n|noSuch}", "{$s|truncate:2|\ninsertWordBreaks:'a'}",
+		"x\n{$u}", "{$i}\n{$i + 'a' - 1}", "{$i -\n 'a'}", "{not\n $u.x}", "{-\n'a'}", "{$u.x\n == 1}", "{1 ==\n $u.x}", "{$n ?:\n $u.x}", "{7 %\n 0}", "{$i % ($u.x)}",
+		"a\n{call .c /}\nb", "a\n\n{call .d /}", "{call .c}\n{param x}\nline\n{$i}\n{/param}\n{/call}", "{call .ok}{param x}\nline\n{$i}\n{/param}{/call}\n{call .c}\n{param x: 1 /}\n{/call}",
+		"{call .c}\n{param x:\n $u.x /}{/call}", "{call .ok data=\"$u.x\" /}", "{call .ok\n data=\"$i\" /}", "{call .nosuch /}", "a\n{call .ok}{param x}{$i}\n{call .c /}\n{/param}{/call}",
+		"{let $v}\na{$i}\n{/let}\n{$v}{$u.x}", "{let $v:\n $u.x /}{$v}", "{let $v}\n{$u.x}\n{/let}{$v}", "{log}\na\n{$u.x}{/log}", "{css\n $u.x, a}", "{css $l[0]\n.x, a}",
+		"{foreach $q in $i}\nx{/foreach}", "{foreach $q in\n $u.x}\nx{/foreach}", "{foreach $q in $l}\n{$q}\n{if $q == 2}{$u.x}{/if}\n{/foreach}", "{foreach $q in $e}x{ifempty}\n{$u.x}{/foreach}", "{for $q in range(\n0, 3, 0)}{$q}{/for}",
+		"{switch $i}\n{case 1,\n $u.x}a{case 7}\nb{$u.x}{/switch}", "{switch\n $u.x}{case 1}a{/switch}", "{switch $i}{case 1}a{default}\n\n{$u.x}{/switch}",
+		"{msg desc=\"d\"}\nHello {$i}\n{$u.x}{/msg}", "{msg desc=\"d\"}{plural\n $s}{case 1}one{default}many{/plural}{/msg}", "{msg desc=\"d\"}a{call .c /}\nb{/msg}", "{msg desc=\"d\"}{plural $i}{case 7}\nseven {$u.x}{default}many{/plural}{/msg}",
+		"{if $b}\n{if $b}\n{$u.x}{/if}{/if}", "{$i}{$i}\n{$i}{$u.x}{$i}", "{index($i)}", "{isFirst(\n$i)}", "{foreach $q in $l}{isLast(\n$i)}{/foreach}",
+	}
+	dataTok := mapTokens(stdData())
+	for _, body := range bodies {
+		fs := exprBundle(body)
+		fs[0].content += callee
+		for _, ij := range []string{"nil", mapTokens(stdIj())} {
+			if r, ok := mkExec("exec", execCase{fs: fs, tmpl: "ns.t", data: dataTok, ij: ij}); ok {
+				g.Add(Case{Req: r, NT: true, Class: "errpos", Note: "error position: " + body})
+			} else {
+				g.Add(Case{Req: req("noparse", hxs(body)), Class: "unparsable", Note: body, NoModel: true})
+			}
+		}
+	}
+	if r, ok := mkExec("exec", execCase{fs: exprBundle("x"), tmpl: "ns.nosuch", data: dataTok, ij: "nil"}); ok {
+		g.Add(Case{Req: r, NT: true, Class: "errpos", Note: "unknown entry template"})
+	}
 }
 
 // globalsTrees mirrors the line discipline of ParseGlobals only as far as needed to hand the model the
